@@ -136,13 +136,18 @@ PROPS = {
     ),
     "C14": dict(
         technique='runtime monitoring: exact float128 rounding oracle, boundary and dense near-tie sweeps over every divisor / bound / overhead and variant, ASan+UBSan',
+        exhaustive_subspaces=dict(
+            quick=["int32 -> complex (cplx_from_znx32 and cplx_from_tnx32, reference and AVX2/FMA kernels): every one of the 2^32 int32 values, "
+                   "each compared with the exact double (counts in monitors.exhaustive_int32:*)"],
+            thorough=["same, in the ASan+UBSan and in the plain build"]),
         runs=std(),
         rule=("case = one conversion call (conversion, variant table-native|table-generic|ref|accelerated kernel, m, "
               "divisor 2^j, log2overhead, repetition) on 2m generated values (exponent sweep, domain boundary, near-ties, "
               "quarter points, integers, tiny, random); distinct by descriptor hash; every case is non-trivial (each "
               "batch contains non-integers and boundary values)"),
         require={"all": ["values_checked", "rounding_exercised", "conv:reim_from_znx64", "conv:reim_to_znx64",
-                         "conv:reim_to_tnx", "conv:cplx_from_znx32", "conv:cplx_from_tnx32", "conv:cplx_to_tnx32"]},
+                         "conv:reim_to_tnx", "conv:cplx_from_znx32", "conv:cplx_from_tnx32", "conv:cplx_to_tnx32",
+                         "exhaustive_int32:cplx_from_znx32_ref", "exhaustive_int32:cplx_from_znx32_avx2_fma", "exhaustive_int32:cplx_from_tnx32_ref", "exhaustive_int32:cplx_from_tnx32_avx2_fma"]},
         assumptions=["exact comparison in __float128: r*d, x and 2^32 scalings fit in 113 bits",
                      "exact .5 ties accept both neighbours; accelerated kernels are called directly only at sizes that "
                      "fill their vector step (the library itself selects them for m >= 8)", ASAN_NOTE],
@@ -240,7 +245,7 @@ PROPS = {
         rule=("case = one pair comparison (accelerated catalogue entry ~ its reference twin, N, argument seed) or one "
               "dispatch comparison (public entry point under generic-C and accelerated dispatch, N, seed); both members "
               "receive identical arguments; distinct by descriptor hash; non-trivial when the compared output is non-empty"),
-        require={"all": ["pair_comparisons", "dispatch_comparisons", "concurrent_pair_comparisons", "class:bitwise", "class:modq", "class:float-budget",
+        require={"all": ["pair_comparisons", "dispatch_comparisons", "dispatch_config:native", "dispatch_config:avx2-only", "dispatch_config:fma-only", "concurrent_pair_comparisons", "class:bitwise", "class:modq", "class:float-budget",
                          "class:rounded-int64", "pair:cplx_fftvec_addmul_avx512", "pair:cplx_fftvec_addmul_sse",
                          "pair:reim_fft16_avx_fma", "pair:fft64_vmp_apply_dft_to_dft_avx"]},
         assumptions=["pairwise floating-point budget: relative 2-norm difference <= 2^-42 on the catalogue's random operands "
